@@ -2,6 +2,7 @@
 
 Roles:
   impl     Environment(package=…, annotations=…).program(compile(text)).evaluate(bindings) on both runners
+           (`hist`: the same program is first evaluated with earlier binding sets; the outcome is that of the last call)
   model    Cel.Model.Names through Cel.Drv.C12 (NameContainer tree, find_name, resolve_name, member_dot, macro binding)
   oracle   the longest-prefix specification and lexical macro scoping, computed here in plain Python from the
            binding *names* (no tree is built), independent of the model and the implementation
@@ -502,6 +503,8 @@ class C12(Prop):
     rule = ("exhaustive small scope: path a.b.c, every assignment unbound/scalar/nested-map to its prefixes at the root (18) x 8 assignments at "
             "package level p x 8 at p.q, x package in {none, p, p.q} x 8 references (prefixes, siblings, unbound head, over-long) x both runners "
             "(thorough: all 1152 configurations; quick: a seeded sample) + package paths of depth 1..5 with the head bound at arbitrary (intermediate) levels "
+            "+ one program evaluated 2..4 times with binding sets of different shapes under dotted declarations (the last evaluation must mean "
+            "its own bindings; where the statement fixes no value, what a new program gives) "
             "+ declarations overlapped with bindings + random macro nestings to depth 3 "
             "over colliding variable names {x,y,a,b}. non-trivial = distinct case with a dotted binding or a nested map or a package, "
             "or a macro nesting of depth >= 2")
